@@ -1,5 +1,5 @@
 import re,subprocess,sys
-AVOID="(Earlier rounds of this exercise already used the following sites; choose a DIFFERENT function and mechanism: Session::get_node_property; TransactionManager::gc; TransactionManager::commit read-set handling; WalManager::truncate_torn_tail; WalManager::sync; WalRecovery read_record length cap; LpgStore::update_property_index_on_set; LpgStore::create_node_with_id/create_edge_with_id id counters; RdfStore::commit_tx ordering; RdfStore::insert_in_tx; GrafeoDB::export_snapshot property conversion; Optimizer::try_push_filter_into Project arm; RdfModifyOperator::next; cypher Lexer::scan_string; LpgStore::get_or_create_label_id; HashableValue list equality; AdjacencyChunk::compress; ExpandOperator edge visibility; ExternalSort compare_rows; TransactionManager::commit (write-set handling, lock scope); ExpressionPredicate::eval_modulo; RdfStore::remove retain predicates; LpgStore::add_label lock order; SnapshotNode serde attributes; Optimizer::collect_output_variables_recursive; ZoneMapEntry::might_contain_less_than/greater_than; DeltaEncoding::encode_signed; OrderedFloat64::cmp; PropertyColumn::set zone map; WalManager::write_checkpoint_metadata; RdfStore::insert lock scope; QueryProcessor::process_lpg planner context; LpgStore::discard_uncommitted_versions; GrafeoDB::close commit marker; TransactionManager::abort state guard; TransactionManager::record_read; LpgStore::all_nodes / remove_label; Optimizer::collect_variables; Planner::check_zone_map_for_predicate; GQL percentile clamp; RdfStore::find_with_pending; LpgStore::find_nodes_by_properties; CodecSelector::select_for_integers; AggregateState::update distinct promotion; HashAggregateOperator::next chunk boundary; LpgStore::advance_epoch_to; FilterOperator::next selection; DistinctOperator keys; Pipeline::push_through stop forwarding; AsyncWalManager::rotate; GraphQLTranslator::expand_fragment; SpillableSortPushOperator::maybe_spill key conversion; AdjacencyList::compact; ScanOperator::load_batch; JoinGraph::get_conditions; GrafeoDB::apply_wal_records; MergeOperator::find_matching_node; MemoryGrant::resize; DictionaryBuilder::clear; VersionChain::has_conflict; RdfJoinCondition::evaluate; SPARQL parse_triples_block.%s)\n"
+AVOID="(Earlier rounds of this exercise already used the following sites; choose a DIFFERENT function and mechanism: Session::get_node_property; TransactionManager::gc; TransactionManager::commit read-set handling; WalManager::truncate_torn_tail; WalManager::sync; WalRecovery read_record length cap; LpgStore::update_property_index_on_set; LpgStore::create_node_with_id/create_edge_with_id id counters; RdfStore::commit_tx ordering; RdfStore::insert_in_tx; GrafeoDB::export_snapshot property conversion; Optimizer::try_push_filter_into Project arm; RdfModifyOperator::next; cypher Lexer::scan_string; LpgStore::get_or_create_label_id; HashableValue list equality; AdjacencyChunk::compress; ExpandOperator edge visibility; ExternalSort compare_rows; TransactionManager::commit (write-set handling, lock scope); ExpressionPredicate::eval_modulo; RdfStore::remove retain predicates; LpgStore::add_label lock order; SnapshotNode serde attributes; Optimizer::collect_output_variables_recursive; ZoneMapEntry::might_contain_less_than/greater_than; DeltaEncoding::encode_signed; OrderedFloat64::cmp; PropertyColumn::set zone map; WalManager::write_checkpoint_metadata; RdfStore::insert lock scope; QueryProcessor::process_lpg planner context; LpgStore::discard_uncommitted_versions; GrafeoDB::close commit marker; TransactionManager::abort state guard; TransactionManager::record_read; LpgStore::all_nodes / remove_label; Optimizer::collect_variables; Planner::check_zone_map_for_predicate; GQL percentile clamp; RdfStore::find_with_pending; LpgStore::find_nodes_by_properties; CodecSelector::select_for_integers; AggregateState::update distinct promotion; HashAggregateOperator::next chunk boundary; LpgStore::advance_epoch_to; FilterOperator::next selection; DistinctOperator keys; Pipeline::push_through stop forwarding; AsyncWalManager::rotate; GraphQLTranslator::expand_fragment; SpillableSortPushOperator::maybe_spill key conversion; AdjacencyList::compact; ScanOperator::load_batch; JoinGraph::get_conditions; GrafeoDB::apply_wal_records; MergeOperator::find_matching_node; MemoryGrant::resize; DictionaryBuilder::clear; VersionChain::has_conflict; RdfJoinCondition::evaluate; SPARQL parse_triples_block; WalRecovery::recover_internal; sort::compare_values; TransactionManager::record_write; ParallelChunkSource::new; FactorizedExpandChain::collect_all_batches; LpgStore::create_edge_with_id adjacency.%s)\n"
 base=open(__import__('os').path.join(__import__('os').path.dirname(__import__('os').path.abspath(__file__)),'task_wt20.txt')).read()
 def mk(n,pid,extra=""):
     import json
